@@ -26,7 +26,14 @@ RULE = ("seeded layouts: 1-4 scalar features (+image, +trace group with an optio
         "lines); 0-2 compound tables with attributes (also empty); 0-3 basins out of {file, second "
         "file, mapped, internal (scalar / scalar+mask)}; defective markers (aspect/ShapeIn 2.0.6, "
         "volume/dclab 0.36.0); unknown feature; stored / missing / wrong min-max-mean attributes; "
-        "empty scalar / image datasets; 15% of the files written through RTDCWriter. Tasks: "
+        "empty scalar / image datasets; 15% of the files written through RTDCWriter; 45% carry a "
+        "software-version chain out of 13 (dclab entry last / in the middle / first, ShapeIn first "
+        "or absent) with 1-4 of the defect-prone features (volume, time as float64/float32 with or "
+        "without frame, inert_ratio_*, tilt, aspect), wide ROI and marker logs — which stored "
+        "feature is defective is decided by an independent re-implementation of the documented "
+        "rules (c08_util.defect_oracle), not by dclab; mapped file basins with the same event "
+        "count as the referrer (permuted / duplicating map) or a longer origin; per run one "
+        "contiguous image dataset of 17-33 MiB with a prime event count. Tasks: "
         "compress, compress again, repack with the four strip combinations, repack again, "
         "condense with the four store options, rtdc_copy called directly with random feature "
         "selection / strip options / meta_prefix. Output names: seeded names built from the input "
@@ -332,6 +339,17 @@ def one_case(ctx, idx, spec, lines, expects):
                                 p[0] == "dclab feature" and flags.get(p[1], "0000")[2] == "1")]
                         if strip[1]:
                             vd = [p for p in vd if p[0] != "dclab log"]
+                            import h5py
+                            with h5py.File(out, "r") as ho:
+                                newly = [f for f in ho["events"] if U.defect_oracle(ho, f)
+                                         and flags.get(U.enc(f), "0000")[3] == "0"]
+                            if any(p[0] == "dclab feature" and p[1] in newly for p in vd):
+                                ctx.note("O11: stripping the logs removes the marker logs "
+                                         "('dclab_issue_141', 'shapein-acquisition') that tell dclab "
+                                         "a stored volume / inert_ratio feature is NOT defective; the "
+                                         "data are copied, but dclab hides the feature in the "
+                                         "log-stripped copy")
+                            vd = [p for p in vd if not (p[0] == "dclab feature" and p[1] in newly)]
                         if vd:
                             probs.append(f"{label}: through dclab the output differs: {vd[:3]}")
                     except Exception as e:  # noqa
@@ -541,8 +559,18 @@ def fixed_cases():
     return out
 
 
+def big_spec(rng):
+    """one contiguous (non-chunked) dataset of more than 16 MiB with a prime event count"""
+    n = rng.choice([4513, 5003, 5501, 6007, 7001, 8009])
+    shape = rng.choice([[64, 64], [60, 72]])
+    return {"n": n, "feats": [{"name": "deform", "kind": "scalar", "storage": "contig", "chunk": 2,
+                               "attrs": [], "wrongattr": False}],
+            "big": shape, "unknown": False, "defective": None, "emptyscalar": False,
+            "emptyimage": False, "logs": [], "tables": [], "basins": [], "writer": False}
+
+
 def run(ctx, only=None):
-    specs = only if only is not None else fixed_cases() + [
+    specs = only if only is not None else fixed_cases() + [big_spec(ctx.rng)] + [
         U.gen_spec(ctx.rng, ctx.thorough) for _ in range(ctx.n(95, 700))]
     lines, expects = [], []
     all_probs = []
